@@ -4,7 +4,7 @@
 ID=$1; P=$2; shift 2
 cd /repo || exit 2
 git diff --quiet || { echo "/repo has uncommitted changes"; exit 2; }
-git apply /verif/seeded/$ID/patch.diff || { echo "patch does not apply"; exit 2; }
+git apply --exclude='*policies.yaml' /verif/seeded/$ID/patch.diff || { echo "patch does not apply"; exit 2; }
 cd /verif && ./simctl check $P --no-evidence "$@"; rc=$?
 cd /repo && git checkout -- . 
 echo "== $ID on $P: exit $rc"
